@@ -10,6 +10,41 @@ use std::sync::Arc;
 
 pub struct Env {
     pub scenarios: Vec<Scenario>,
+    /// per message type: the JSON keys its body accepts (the `rename = "…"` literals of
+    /// src/messages/mt<type>.rs) — workload guidance only: lets the C13 mutator add fields that
+    /// no shipped scenario of the type carries
+    pub vocab: BTreeMap<String, Vec<String>>,
+}
+
+impl Env {
+    pub fn load() -> Result<Env, String> {
+        let scenarios = crate::scen::load_all()?;
+        let mut vocab: BTreeMap<String, Vec<String>> = BTreeMap::new();
+        let mut types: Vec<String> = scenarios.iter().map(|s| s.mt.clone()).collect();
+        types.sort();
+        types.dedup();
+        for mt in types {
+            let path = crate::scen::repo_root().join("src").join("messages").join(format!("mt{mt}.rs"));
+            let mut keys: Vec<String> = vec![];
+            if let Ok(src) = std::fs::read_to_string(&path) {
+                let mut rest = src.as_str();
+                while let Some(p) = rest.find("rename = \"") {
+                    let tail = &rest[p + 10..];
+                    if let Some(q) = tail.find('"') {
+                        let k = &tail[..q];
+                        if !k.is_empty() && k.len() <= 6 && k != "#" && !keys.iter().any(|x| x == k) {
+                            keys.push(k.to_string());
+                        }
+                        rest = &tail[q..];
+                    } else {
+                        break;
+                    }
+                }
+            }
+            vocab.insert(mt, keys);
+        }
+        Ok(Env { scenarios, vocab })
+    }
 }
 
 /// The window in which "today" can be written as YYMMDD and read back as the
